@@ -23,6 +23,9 @@ Section Propagate.
   Definition is_negation_node (t : item) : bool := isinstance_any (cls_of t) gen_negation_nodes.
   Definition is_no_children_propagate (t : item) : bool :=
     isinstance_any (cls_of t) gen_no_children_propagate.
+  (* isinstance(node, tree.BaseOperation)  (the class is written in the method body of _propagate,
+     not in a class-level table; the MRO of the node's class is generated) *)
+  Definition is_base_operation (t : item) : bool := isinstance (cls_of t) CBaseOperation.
 
   (* _status_from_parent, on the reversed path so that path[:-1] is the structural tail *)
   Fixpoint sfp_rev (rp : list nat) : bool :=
@@ -48,15 +51,22 @@ Section Propagate.
           (b :: bs, ok ++ oks, ko ++ kos)
       end.
 
-  (* "resolve node status", negation, and insertion of the node's own path *)
+  (* `children_status` as a truth value: a non-empty list *)
+  Definition truthy {A} (l : list A) : bool := match l with [] => false | _ => true end.
+
+  (* "resolve node status", negation, and insertion of the node's own path:
+       if path in matching: node_ok = True
+       elif children_status or isinstance(node, tree.BaseOperation):
+           operator = any if isinstance(node, self.OR_NODES) else all
+           node_ok = operator(children_status)     # an operation without operand: any([]) / all([])
+       else: node_ok = self._status_from_parent(path, matching, other) *)
   Definition resolve (t : item) (p : path) (r : list bool * list path * list path) : pres :=
     let '(sts, ok, ko) := r in
     let v := if mem_path p matching then true
-             else match sts with
-                  | [] => status_from_parent p
-                  | _ => if is_or_node t then existsb (fun b => b) sts
-                         else forallb (fun b => b) sts
-                  end in
+             else if truthy sts || is_base_operation t then
+                    (if is_or_node t then existsb (fun b => b) sts
+                     else forallb (fun b => b) sts)
+             else status_from_parent p in
     let node_ok := if is_negation_node t then negb v else v in
     if node_ok then (node_ok, ok ++ [p], ko) else (node_ok, ok, ko ++ [p]).
 
